@@ -25,7 +25,13 @@ git -C /repo apply $S/out/patch.diff || { echo "$P: patch does not apply to /rep
 s=$(date +%s)
 VERIF_EVIDENCE_DIR=/tmp/vfw-evidence-scratch VERIF_CASE_TIMEOUT=30 ./check $P --tier $TIER > $S/out/check_$TIER.txt 2>&1; CE=$?
 e=$(date +%s)
+GEN=""
+if grep -q "VIOLATION property=$P replay=$V/replay/" $S/out/check_$TIER.txt && ! grep -q "replay=$V/found/" $S/out/check_$TIER.txt; then
+  # caught by a committed replay file only: is it also caught by the generated search alone?
+  VERIF_NO_REGRESSION=1 VERIF_EVIDENCE_DIR=/tmp/vfw-evidence-scratch VERIF_CASE_TIMEOUT=30 ./check $P --tier $TIER > $S/out/check_${TIER}_noreplay.txt 2>&1
+  GEN=" | generated search alone: exit=$? $(grep -A1 VIOLATION $S/out/check_${TIER}_noreplay.txt | tail -1 | cut -c1-160)"
+fi
 git -C /repo checkout -- .
 rm -rf $V/found/$P
-echo "$P check($TIER) exit=$CE $((e-s))s: $(grep -E -A1 'VIOLATION|HARNESS' $S/out/check_$TIER.txt | head -2 | tr '\n' ' ' | cut -c1-300)"
+echo "$P check($TIER) exit=$CE $((e-s))s: $(grep -E -A1 'VIOLATION|HARNESS' $S/out/check_$TIER.txt | head -2 | tr '\n' ' ' | cut -c1-300)$GEN"
 echo "{\"tests\": \"$T\", \"demo_with_change_exit\": $DW, \"demo_without_change_exit\": $DO, \"check_tier\": \"$TIER\", \"check_exit\": $CE, \"check_seconds\": $((e-s))}" > $V/seeded/$P/confirm_$TIER.json
